@@ -875,6 +875,12 @@ Maint(a, r, post) ==
         Chk("MODEL.assign_incident_cells leaves a vertex without a valid incident cell or changes a cell",
             r.kind = "Ok" /\ L2f(post) /\ ObsCells(post) = ObsCells(pre) /\ ObsVerts(post) = ObsVerts(pre)
             /\ \A v \in VRecs(post) : (v.inc = 0) = (\A c \in CRecs(post) : v.id \notin CellSet(c))))
+  \* repair_neighbor_pointers rebuilds every neighbour slot from facet incidence: afterwards the slots are exactly
+  \* what incidence determines, cells and vertices are untouched
+  /\ (a.op = "repair_neighbor_pointers" /\ Level1Q(pre) /\ L2a(pre) /\ L2b(pre) /\ L2c(pre) /\ L2d(pre) =>
+        Chk("MODEL.repair_neighbor_pointers leaves a wrong neighbour slot or changes a cell",
+            r.kind = "Ok" /\ L2e(post) /\ K(post) = K(pre) /\ ObsVerts(post) = ObsVerts(pre)
+            /\ {[id |-> x.id, vs |-> x.vs, data |-> x.data] : x \in CRecs(post)} = {[id |-> x.id, vs |-> x.vs, data |-> x.data] : x \in CRecs(pre)}))
   /\ (a.op = "is_connected" /\ Level1Q(pre) /\ Level2Q(pre) /\ Len(pre.cells) > 0 =>
         Chk("MODEL.is_connected disagrees with facet connectivity", (r.n = 1) = DualConnected(K(pre))))
   /\ (a.op = "star_of_each_vertex" /\ Level1Q(pre) /\ Level2Q(pre) =>
